@@ -1,6 +1,10 @@
 package retransmission
 
-import "github.com/keep-network/keep-core/pkg/net"
+import (
+	"sync"
+
+	"github.com/keep-network/keep-core/pkg/net"
+)
 
 // Strategy represents a specific retransmission strategy.
 type Strategy interface {
@@ -43,7 +47,11 @@ func (ss *StandardStrategy) Tick(retransmitFn RetransmitFn) error {
 // first and second retransmission is 1 tick, between second and third is 2
 // ticks, between third and fourth is 4 ticks and so on. Graphically, the
 // schedule looks as follows: R _ R _ _ R _ _ _ _  R _ _ _ _ _ _ _ _ R
+//
+// Tick is safe for concurrent use: ScheduleRetransmissions runs every tick on
+// its own goroutine, so ticks of one message may overlap.
 type BackoffStrategy struct {
+	mutex          sync.Mutex
 	tickCounter    uint64
 	delay          uint64
 	retransmitTick uint64
@@ -61,12 +69,18 @@ func WithBackoffStrategy() *BackoffStrategy {
 
 // Tick implements the Strategy.Tick function.
 func (bos *BackoffStrategy) Tick(retransmitFn RetransmitFn) error {
+	bos.mutex.Lock()
 	bos.tickCounter++
-
-	if bos.tickCounter == bos.retransmitTick {
+	shouldRetransmit := bos.tickCounter == bos.retransmitTick
+	if shouldRetransmit {
 		bos.retransmitTick += bos.delay + 1
 		bos.delay *= 2
+	}
+	bos.mutex.Unlock()
 
+	// The retransmission routine runs outside the lock so that a slow
+	// retransmission does not hold back the ticks that follow.
+	if shouldRetransmit {
 		return retransmitFn()
 	}
 
